@@ -37,6 +37,7 @@ type verifNestGen struct {
 	helper   string // extra functions (for "call" slots)
 	nfn      int
 	guard    string // loop-guard counter declarations
+	withLine bool   // catch blocks also print the line their error carries (not for programs that are printed and re-read: layout is not meaning)
 }
 
 func (g *verifNestGen) exitStmt() string {
@@ -108,7 +109,7 @@ func (g *verifNestGen) body(lvl int, inLoop bool) (string, bool) {
 		return decl + ind + "match " + local + " {\n" + ind + "  0 => { println(\"never\"); },\n" + ind + "  _ => {\n" + inner + ind + "  println(\"i" + fmt.Sprint(lvl) + "\");\n" + ind + "  },\n" + ind + "}\n" + after, ok
 	case "try":
 		inner, ok := g.body(lvl+1, inLoop)
-		return decl + ind + "try {\n" + inner + ind + "  println(\"i" + fmt.Sprint(lvl) + "\");\n" + ind + "} catch e" + fmt.Sprint(lvl) + " {\n" + ind + "  println(\"caught\", e" + fmt.Sprint(lvl) + ".message, e" + fmt.Sprint(lvl) + ".line);\n" + ind + "}\n" + after, ok
+		return decl + ind + "try {\n" + inner + ind + "  println(\"i" + fmt.Sprint(lvl) + "\");\n" + ind + "} catch e" + fmt.Sprint(lvl) + " {\n" + ind + "  println(\"caught\", e" + fmt.Sprint(lvl) + ".message" + g.lineOf("e"+fmt.Sprint(lvl)) + ");\n" + ind + "}\n" + after, ok
 	case "catch":
 		inner, ok := g.body(lvl+1, inLoop)
 		return decl + ind + "try {\n" + ind + "  throw(\"first\");\n" + ind + "} catch e" + fmt.Sprint(lvl) + " {\n" + inner + ind + "  println(\"i" + fmt.Sprint(lvl) + "\");\n" + ind + "}\n" + after, ok
@@ -132,7 +133,7 @@ func (g *verifNestGen) body(lvl int, inLoop bool) (string, bool) {
 	case "call":
 		g.nfn++
 		name := fmt.Sprintf("h%d", g.nfn)
-		sub := &verifNestGen{slots: nil, exit: g.exit}
+		sub := &verifNestGen{slots: nil, exit: g.exit, withLine: g.withLine}
 		_ = sub
 		inner, ok := g.body(lvl+1, false) // a new function: no enclosing loop
 		if !ok {
@@ -150,7 +151,7 @@ func (g *verifNestGen) program() (string, bool) {
 		return "", false
 	}
 	f := "fn f(p: bool) -> int {\n  println(\"in\");\n  let a0 = 10;\n" + inner + "  println(\"end\", a0);\n  return 1;\n}\n"
-	main := "fn main() {\n  println(1000 - f(P));\n  println(2000 - f(false));\n  try { throw(\"z\"); } catch e { println(e.message, e.line); }\n  println(\"done\");\n  throw(\"final\");\n}\n"
+	main := "fn main() {\n  println(1000 - f(P));\n  println(2000 - f(false));\n  try { throw(\"z\"); } catch e { println(e.message" + g.lineOf("e") + "); }\n  println(\"done\");\n  throw(\"final\");\n}\n"
 	return g.helper + f + main, true
 }
 
@@ -182,7 +183,7 @@ func VerifHarness_Nest() {
 	mode := errors.VerifParam("mode", 1)
 	D := errors.VerifParam("D", 2)
 	d := errors.VerifNdIntRange("depth", 1, D)
-	g := &verifNestGen{exit: errors.VerifNdIntRange("exit", 0, len(verifExitKinds)-1)}
+	g := &verifNestGen{exit: errors.VerifNdIntRange("exit", 0, len(verifExitKinds)-1), withLine: true}
 	g.exitForm = errors.VerifNdIntRange("exitForm", 0, 1)
 	tag := fmt.Sprintf("form%d:", g.exitForm)
 	for i := 0; i < d; i++ {
@@ -204,4 +205,11 @@ func VerifHarness_Nest() {
 	errors.VerifAssume(a <= 3)
 	inputs := []verifInput{{name: "P", kind: 'b', b: p}, {name: "A", kind: 'i', i: a}}
 	verifCheckProgramX(mode, code, inputs, true, false)
+}
+
+func (g *verifNestGen) lineOf(ident string) string {
+	if g.withLine {
+		return ", " + ident + ".line"
+	}
+	return ""
 }
